@@ -532,7 +532,12 @@ func init() {
 		genLongScans(tier, r, emit)
 		// printing to a failing writer must not consult the digits of later ranges either (as C12)
 		genC12Far(tier, r, emit)
-	}, map[string]runner{"Hist": runHist, "Fprint": runFprint})
+		// searches are operations too: nothing is consulted beyond the end of the last reported match (+ read-ahead)
+		old := caseBudget
+		caseBudget = 4 * time.Second
+		genPlanted(n/10, r, emit)
+		caseBudget = old
+	}, map[string]runner{"Hist": runHist, "Fprint": runFprint, "Find": runFind})
 	register("C17", func(tier string, r *Rng, emit func(Case)) {
 		n := 1500
 		if tier == "thorough" {
